@@ -242,6 +242,7 @@ func TestVerifC06Honest(t *testing.T) {
 								r.Violate("C06|new-credential-cannot-be-shown", fmt.Sprintf("%s: %v", cfg, err), rep)
 							}
 						}
+						r.Outcome(fmt.Sprintf("credential-issued:attributes=%d:blind=%d:keyshare=%v:witness=%v", nn, len(blind), keyshare, witness))
 						r.Sample(map[string]any{"config": cfg.String()})
 					}
 				}
